@@ -128,6 +128,9 @@ func c15Check(ctx *Ctx, res *CaseResult, dir string, p *c15Payload, regen *Rand)
 		return out
 	}
 	cur := run.Schemas
+	start := run.Schemas
+	var applied compiler.Passes
+	allApplied := true
 	steps := p.Passes
 	n := len(steps)
 	if regen != nil {
@@ -152,6 +155,7 @@ func c15Check(ctx *Ctx, res *CaseResult, dir string, p *c15Payload, regen *Rand)
 		pass, err := ps.Build()
 		if err != nil {
 			ctx.Count("build_error "+ps.Kind, 1)
+			allApplied = false
 			continue
 		}
 		var next ast.Schemas
@@ -169,8 +173,10 @@ func c15Check(ctx *Ctx, res *CaseResult, dir string, p *c15Payload, regen *Rand)
 		}
 		if ex.Err != nil || next == nil {
 			ctx.Count("pass_error "+ps.Kind, 1)
+			allApplied = false
 			continue
 		}
+		applied = append(applied, pass)
 		// the pass must not have modified its input (Process copies first)
 		if d := firstDiff(irGeneric(before, nil), irGeneric(mirrorOf(cur), nil), ""); d != "" {
 			out["input-modified|"+ps.Kind] = fmt.Sprintf("%s modified the schemas it was handed at %s", ps.Kind, d)
@@ -190,6 +196,48 @@ func c15Check(ctx *Ctx, res *CaseResult, dir string, p *c15Payload, regen *Rand)
 			}
 		}
 		cur = next
+	}
+	// the same history as ONE chain (how a transformation file is applied: one copy
+	// at the start, then every pass on the same schemas) must give what the passes
+	// give one by one, each on its own copy: a difference is interference between
+	// the passes of a chain (structure shared between objects, state kept in a pass).
+	if allApplied && len(applied) >= 2 {
+		// passes keep per-run state: rebuild them
+		var fresh compiler.Passes
+		for _, ps := range p.Passes {
+			if pass, err := ps.Build(); err == nil {
+				fresh = append(fresh, pass)
+			}
+		}
+		if len(fresh) == len(applied) {
+			var chained ast.Schemas
+			CurrentDesc.Store("C15 chain")
+			ex := Simulate(p.Sched, nil, pipelineMaxTicks, func() error {
+				var err error
+				chained, err = fresh.Process(start)
+				return err
+			})
+			ctx.Account(ex)
+			res.Execs++
+			if ex.Panic == nil && ex.Err == nil && chained != nil {
+				ctx.Count("chain_vs_steps_compared", 1)
+				a, b := mirrorOf(cur), mirrorOf(chained)
+				ga, gb := make([]any, len(a)), make([]any, len(b))
+				for i, s := range a {
+					ga[i] = map[string]any{"Package": s.Package, "Metadata": s.Metadata, "EntryPoint": s.EntryPoint, "EntryPointType": s.EntryPointType, "Objects": objsAny(s.Objects)}
+				}
+				for i, s := range b {
+					gb[i] = map[string]any{"Package": s.Package, "Metadata": s.Metadata, "EntryPoint": s.EntryPoint, "EntryPointType": s.EntryPointType, "Objects": objsAny(s.Objects)}
+				}
+				if d := firstDiff(ga, gb, ""); d != "" {
+					var kinds []string
+					for _, ps := range p.Passes {
+						kinds = append(kinds, ps.Kind)
+					}
+					out["chain-vs-steps|"+normDiffPath(d)] = fmt.Sprintf("the history %v applied as one chain differs from the same passes applied one by one at %s (steps vs chain)", kinds, d)
+				}
+			}
+		}
 	}
 	return out
 }
